@@ -16,8 +16,10 @@ RULE = (
     'and unit (m/s^2, cm/s^2, m/ms^2); incident beam(s) of length 1..100 perpendicular to gravity and then tilted by '
     '0, 1e-12 … 1 rad, by amounts straddling the dispatch threshold |g·b1| = 1e-10|g| (±1e-3 … ±1 ulp), or nearly '
     'parallel to gravity (ValueError branch); 1..5 detector pixels in random directions at 0.1..20 m in m/mm/cm; '
-    'wavelengths 0, 1e-3..100 Å (Å, nm) as a shared dense row, a pixel×wavelength array, bins per pixel, or scalars; '
-    'float64 or float32 wavelength; one incident beam or one per pixel. Each scenario is evaluated by the public '
+    'wavelengths 0, 1e-3..100 Å (expressed in Å, nm or m) as a shared dense row, a pixel×wavelength array, bins per pixel, or scalars; '
+    'float64 or float32 wavelength; one incident beam or one per pixel; 15 % of the scenarios (60 % of the repeat-call cases) use '
+    'units that make every internal conversion the identity (wavelength in m, beams in m, gravity in m/s²). Each public and '
+    'private function is also called twice on the very same operand objects (bit-identical results and operands). Each scenario is evaluated by the public '
     'function, by both private implementations, by the reflectometry variant, by beam_aligned_unit_vectors and '
     '_drop_due_to_gravity, and by the Lean model. Non-trivial = reaches an angle computation or a ValueError; '
     'distinct = distinct input bit patterns.'
@@ -51,7 +53,7 @@ THR = 1e-10
 LEN_UNITS = ['m', 'mm', 'cm']
 B1_UNITS = ['m', 'cm', 'm', 'm']
 G_UNITS = ['m/s^2', 'm/s^2', 'm/s^2', 'cm/s^2', 'm/ms^2']
-LAM_UNITS = ['angstrom', 'angstrom', 'angstrom', 'nm']
+LAM_UNITS = ['angstrom', 'angstrom', 'angstrom', 'nm', 'm']
 
 
 # ---------------------------------------------------------------------------------------------
@@ -195,7 +197,11 @@ def gen_lambda(rng, dt):
     return float(np.dtype(dt).type(x))
 
 
-def gen_scenario(rng, b1_kind=None):
+def gen_scenario(rng, b1_kind=None, noop_units=None):
+    """noop_units: wavelength in m, beams in m, gravity in m/s² — every internal unit conversion of the code is the identity
+    (for float64 also every dtype conversion), so `.to(..., copy=False)` hands the caller's buffers to in-place code"""
+    if noop_units is None:
+        noop_units = rng.random() < 0.15
     g = gen_gravity(rng)
     dt = rng.choice(['float64', 'float64', 'float32'])
     layout = rng.choice(['dense1d', 'dense2d', 'binned', 'scalar'])
@@ -206,7 +212,7 @@ def gen_scenario(rng, b1_kind=None):
     if per_pixel_b1:
         for _ in range(npix - 1):
             b1s.append(gen_b1(rng, g, rng.choice([kind, 'tilt', 'exact'])))
-    du = rng.choice(LEN_UNITS)
+    du = 'm' if noop_units else rng.choice(LEN_UNITS)
     us = unit_scale('m', du)
     b2s = [[c * _lu(rng, 0.1, 20) * us for c in _dir(rng)] for _ in range(npix)]
     if layout == 'dense1d':
@@ -219,8 +225,13 @@ def gen_scenario(rng, b1_kind=None):
         lams = [[gen_lambda(rng, dt) for _ in range(rng.randrange(0, 5))] for _ in range(npix)]
     else:
         lams = [[gen_lambda(rng, dt)]]
-    b1u = rng.choice(B1_UNITS)
-    gu = rng.choice(G_UNITS)
+    b1u = 'm' if noop_units else rng.choice(B1_UNITS)
+    gu = 'm/s^2' if noop_units else rng.choice(G_UNITS)
+    lu = 'm' if noop_units else rng.choice(LAM_UNITS)
+    ls = unit_scale('angstrom', lu)
+    if ls != 1.0:
+        # wavelengths are drawn in ångström (0..100 Å) and expressed in the chosen unit
+        lams = [[float(np.dtype(dt).type(x * ls)) for x in row] for row in lams]
     gs = unit_scale('m/s^2', gu)
     if gs != 1.0:
         # keep the physical magnitude in the property's range: the values are expressed in the chosen unit.
@@ -228,7 +239,7 @@ def gen_scenario(rng, b1_kind=None):
         g = [c * gs for c in g]
     return {
         'g': g, 'gu': gu, 'b1': [b[2] for b in b1s], 'b1_kind': [b[0] for b in b1s],
-        'tilt': [b[1] for b in b1s], 'b1u': b1u, 'b2': b2s, 'du': du, 'lam': lams, 'lu': rng.choice(LAM_UNITS),
+        'tilt': [b[1] for b in b1s], 'b1u': b1u, 'b2': b2s, 'du': du, 'lam': lams, 'lu': lu,
         'dtype': dt, 'layout': layout,
     }
 
@@ -705,6 +716,7 @@ def load_corpus():
                     sn = dict(sn)
                     sn.setdefault('b1_kind', ['tilt'] * len(sn['b1']))
                     sn.setdefault('tilt', [0.0] * len(sn['b1']))
+                    sn['lam'] = [[float(np.dtype(sn['dtype']).type(x)) for x in row] for row in sn['lam']]
                     out.append(sn)
     return out
 
@@ -743,10 +755,86 @@ def _oracle(ctx, deep):
             if not clearly_tilted(sn):
                 check_scenario(ctx, sn, 'orth')
         check_scenario(ctx, sn, 'yz')
+    # ---- O1b: every function twice on the same operand objects ------------------------------
+    for sn in load_corpus():
+        for which in ('public', 'yz', 'generic', 'orth'):
+            check_repeat(ctx, sn, which)
+    _oracle_repeat(ctx, ctx.n(150, 5000) * mult)
     # ---- O2: continuity across the dispatch threshold ---------------------------------------
     _oracle_continuity(ctx, ctx.n(150, 6000) * mult)
     # ---- O3: limits, monotonicity, sign of the correction ------------------------------------
     _oracle_limits(ctx, ctx.n(120, 5000) * mult)
+
+
+def _snap_var(v):
+    """bit-level snapshot of a (possibly binned) variable"""
+    if v.bins is not None:
+        c = v.bins.constituents
+        return ('binned', str(c['data'].dtype), str(c['data'].unit), np.array(c['data'].values).tobytes(),
+                np.array(c['begin'].values).tobytes(), np.array(c['end'].values).tobytes())
+    return (str(v.dtype), str(v.unit), tuple(v.dims), np.array(v.values).tobytes())
+
+
+def _snap_result(r):
+    if isinstance(r, dict):
+        return {k: _snap_var(v) for k, v in sorted(r.items())}
+    return _snap_var(r)
+
+
+def check_repeat(ctx, sn, which, count=True):
+    """call one function twice on the very same operand objects: the operands must be bit-identical afterwards and the
+    second result bit-identical to the first"""
+    from scippneutron.conversion import beamline as bl
+
+    fn = {'public': bl.scattering_angles_with_gravity, 'generic': bl._scattering_angles_with_gravity_generic,
+          'orth': bl._scattering_angles_with_gravity_orthogonal_coords, 'yz': bl.scattering_angle_in_yz_plane}[which]
+    ib, sb, wl, gv = build_inputs(sn)
+    ops = {'incident_beam': ib, 'scattered_beam': sb, 'wavelength': wl, 'gravity': gv}
+    before = {k: _snap_var(v) for k, v in ops.items()}
+    res = []
+    for _ in range(2):
+        try:
+            r = fn(incident_beam=ib, scattered_beam=sb, wavelength=wl, gravity=gv)
+            res.append(('ok', _snap_result(r), r))
+        except Exception as e:  # noqa: BLE001
+            res.append((_err(e), None, None))
+        after = {k: _snap_var(v) for k, v in ops.items()}
+        if after != before:
+            changed = sorted(k for k in ops if after[k] != before[k])
+            wl_after = None
+            if 'wavelength' in changed and wl.bins is None:
+                wl_after = [float(x) for x in np.ravel(wl.values)[:4]], str(wl.unit)
+            ctx.violation('C04:operand-modified', f'{fn.__name__} overwrote its operand(s) {changed}'
+                          + (f': wavelength is now {wl_after[0]} {wl_after[1]}' if wl_after else '')
+                          + f' (wavelength {sn["dtype"]} in {sn["lu"]}, beams in {sn["b1u"]}/{sn["du"]}, gravity in {sn["gu"]}, {sn["layout"]})',
+                          _witness(sn, 0, 0, {'which': which, 'kind': 'repeat', 'changed': changed}))
+            return 1
+    if count:
+        ctx.case(('repeat', which, driver_args(sn), sn['layout'], sn['lu'], sn['du'], sn['gu'], sn['b1u']), True)
+        ctx.count('oracle:repeat:' + which + (':noop-units' if (sn['lu'], sn['du'], sn['b1u'], sn['gu']) == ('m', 'm', 'm', 'm/s^2') else ''))
+    if res[0][0] != res[1][0] or res[0][1] != res[1][1]:
+        def first(r):
+            if r[0] != 'ok':
+                return r[0]
+            v = r[2]['two_theta'] if isinstance(r[2], dict) else r[2]
+            v = v.bins.constituents['data'] if v.bins is not None else v
+            return [float(x) for x in np.ravel(v.values)[:3]]
+        ctx.violation('C04:second-call-differs', f'{fn.__name__} called twice on the same operands returned {first(res[0])} and then '
+                      f'{first(res[1])}', _witness(sn, 0, 0, {'which': which, 'kind': 'repeat'}))
+        return 1
+    return 0
+
+
+def _oracle_repeat(ctx, n):
+    rng = ctx.rng
+    for _ in range(n):
+        sn = gen_scenario(rng, noop_units=rng.random() < 0.6)
+        if rng.random() < 0.5:
+            # plain realistic numbers as well: neutrons of a few ångström, metres, standard gravity
+            sn['dtype'] = rng.choice(['float64', 'float32'])
+            sn['lam'] = [[float(np.dtype(sn['dtype']).type(x)) for x in row] for row in sn['lam']]
+        for which in ('public', 'yz', 'generic', 'orth'):
+            check_repeat(ctx, sn, which)
 
 
 def _scalar_scenario(rng, g, b1, b2, lam, dt='float64'):
@@ -917,6 +1005,8 @@ def replay(ctx, payload):
                 pass
         sink = Sink()
         kind = w.get('kind')
+        if kind == 'repeat':
+            return check_repeat(sink, sn, w.get('which', 'public'), count=False) > 0
         if kind == 'continuity':
             other = dict(sn)
             other['b1'] = [[hp.unbits(h) for h in w['other_b1_bits']]]
